@@ -212,6 +212,50 @@ def inproc_part(ctx):
     ctx.cov["inproc_programs"] = n
 
 
+def generic_part(ctx):
+    """Generic contracts and interfaces with associated types under permutations of their methods: the parameter order of a
+    message type follows the first use of the parameters, i.e. the method order, and every generated item that names the
+    type (the Api aliases) has to follow it in every order; acceptance must not change."""
+    from . import c15
+    n = ctx.pick(24, 120)
+    limit = ctx.pick(3, 6)
+    jobs, meta = [], {}
+    for i in range(n):
+        rng = ctx.rng("c14g", i)
+        p = spec.gen_generic_program(rng, f"og{i:04d}", n_generics=rng.choice([2, 3, 4]), n_ifaces=rng.choice([1, 2]))
+        orders = [("id", {})]
+        for part in p["parts"]:
+            for j, pm in enumerate(perms(rng, len(part["handlers"]), limit)):
+                orders.append((f"{part['id']}v{j}", {part["id"]: pm}))
+        for vname, order in orders:
+            R = render.R(p, order=order)
+            base = f"og{i:04d}_{vname}"
+            if vname == "id" or "c" in order:
+                jobs.append((base + "_c", "contract", None, R.contract_item(), True))
+            for part in p["parts"][1:]:
+                if vname == "id" or part["id"] in order:
+                    jobs.append((f"{base}_{part['id']}", "interface", None, R.iface_item(part), True))
+        meta[f"og{i:04d}"] = p
+    res = inproc_engine.run_jobs(ctx, "c14g", jobs)
+    for jid, r in res.items():
+        ctx.ev()
+        pname = jid.split("_")[0]
+        d = {"program": pname, "job": jid, "status": r["status"]}
+        if r["status"] != "clean":
+            ctx.violate("acceptance-depends-on-order:generic" if "_id_" not in jid else "original-rejected",
+                        f"{jid}: generic program expands {r['status']} in this declaration order {r.get('panic', '')[:80]}", d)
+            continue
+        bad = c15.api_alias_mismatches(r["view"])
+        if bad:
+            tr, st, line, names, declared = bad[0]
+            ctx.violate("api-argument-order-depends-on-order", f"{jid}: `{tr}` names `{line.strip()[:80]}` but the type's parameters are {declared} in this declaration order",
+                        dict(d, impl=tr, self_ty=st, line=line, declared=declared))
+        else:
+            ctx.nontrivial([jid, "generic-order"])
+            ctx.count("generic_orders_consistent")
+    ctx.cov["inproc_generic_programs"] = n
+
+
 def twins(ctx):
     """Order twins compiled against the repository and run under the C02/C03/C07/C08 monitors."""
     n = ctx.pick(8, 40)
@@ -276,4 +320,5 @@ def run(ctx):
                 "same spec; non-trivial+distinct = distinct (program, item, permutation) comparisons")
     ctx.assumptions = ["dispatch arms are compared behaviourally (twins under the monitors), not textually"]
     inproc_part(ctx)
+    generic_part(ctx)
     twins(ctx)
